@@ -41,7 +41,7 @@ for prop in sys.argv[1:]:
                 res[cls] = dict(suite=suite, seq=seq, ops=[_render(o) for o in seq['ops']],
                                 last=dict(reply=rr[-1]['kind'] + ':' + repr(rr[-1]['payload'][:60]), verdict=rr[-1]['f'].get(col)))
                 continue
-            res[cls] = dict(suite=suite, seq=seq, ops=([' '.join(bytes.fromhex(a).decode('latin1') for a in o.get('cmd', [])) + (' {while: ' + ' '.join(bytes.fromhex(a).decode('latin1') for a in o['inject']) + ' at ' + o.get('injectAt', '') + '}' if o.get('inject') else '') + (' [+%dms]' % o['adv'] if o.get('adv') else '') + (' @conn%d' % o['conn'] if o.get('conn', -1) >= 0 else '') for o in seq['ops']] if seq.get('ops') else [json.dumps(seq.get('z') or seq.get('writes') or seq.get('auto') or {k: seq.get(k) for k in ('a', 'b')})[:400]]),
+            res[cls] = dict(suite=suite, seq=seq, ops=([(' '.join(bytes.fromhex(a).decode('latin1') for a in o.get('cmd', [])) or ('<sampler pass on db %d>' % (o['tick'] - 1) if o.get('tick') else '')) + (' {while: ' + ' '.join(bytes.fromhex(a).decode('latin1') for a in o['inject']) + ' at ' + o.get('injectAt', '') + '}' if o.get('inject') else '') + (' [+%dms]' % o['adv'] if o.get('adv') else '') + (' @conn%d' % o['conn'] if o.get('conn', -1) >= 0 else '') for o in seq['ops']] if seq.get('ops') else [json.dumps(seq.get('z') or seq.get('writes') or seq.get('auto') or {k: seq.get(k) for k in ('a', 'b')})[:400]]),
                             last=(lambda x: dict(reply=x['kind'] + ':' + repr(x['payload'][:60]), verdict=x['f'].get(col), at=x['seq']))(vlib.pick_row(rr, col, clscol, cls)))
     out[prop] = res
 shutil.rmtree(work, ignore_errors=True)
